@@ -281,28 +281,36 @@ def simp_fenv(step):
 
 def simp_heap(step):
     op, kv = kv_parse(step); out = []
-    for k, simple in (('fail', '0'), ('reuse', '0'), ('yield', '0'), ('tail', 'slack'), ('task', '0')):
+    for k, simple in (('fail', '0'), ('y', '0'), ('reuse', '0'), ('tail', 'slack'), ('task', '0'), ('how', '0'), ('z', 'uniq'), ('res', '0'), ('fill', '90')):
         v = kv_get(step, k)
         if v is not None and v != simple:
             out.append(kv_set(step, k, simple))
-    n = kv_get(step, 'n')
-    if n is not None and int(n) > 1:
-        out.append(kv_set(step, 'n', int(n) // 2)); out.append(kv_set(step, 'n', int(n) - 1))
+    for k in ('n', 'm'):
+        n = kv_get(step, k)
+        if n is not None and n.isdigit() and int(n) > 1:
+            out.append(kv_set(step, k, int(n) // 2)); out.append(kv_set(step, k, int(n) - 1))
     return out
 
 
 def simp_mem(step):
     op, kv = kv_parse(step); out = []
-    v = kv_get(step, 'fault')
-    if v is not None and v != 'none':
-        out.append(kv_set(step, 'fault', 'none'))
-    v = kv_get(step, 'poison')
-    if v is not None and v != '0':
-        out.append(kv_set(step, 'poison', 0))
-    for k in ('before', 'after'):
+    for k, simple in (('fault', 'none'), ('poison', '0'), ('cls', '0'), ('pages', 'WWWWWWWW')):
         v = kv_get(step, k)
-        if v is not None and v != 'RW':
-            out.append(kv_set(step, k, 'RW'))
+        if v is not None and v != simple:
+            out.append(kv_set(step, k, simple))
+    v = kv_get(step, 'pages')
+    if v and v != 'WWWWWWWW':
+        # keep one non-RW page at a time
+        for i, ch in enumerate(v):
+            if ch != 'W':
+                cand = 'W' * i + ch + 'W' * (len(v) - i - 1)
+                if cand != v:
+                    out.append(kv_set(step, 'pages', cand))
+    v = kv_get(step, 'form')
+    if v in ('ct', 'act', 'art', 'def') and op in ('load', 'store', 'gather', 'scatter'):
+        out.append(kv_set(step, 'form', 'rt'))
+    if kv_get(step, 'k') == 'all':
+        out.append(kv_set(step, 'k', '0'))
     return out
 
 
